@@ -1,10 +1,10 @@
 package rules
 
 import (
-	"go/token"
 	"fmt"
-	"math"
+	"go/token"
 	"go/types"
+	"math"
 	"strings"
 
 	"golang.org/x/tools/go/ssa"
@@ -13,7 +13,7 @@ import (
 )
 
 func init() {
-	register("C18", "Decides the structural clauses of enrichment: (R18.1) in GetReverseDnsForIPs the map key and the lookup argument are both the goroutine's own ip parameter, passed by value at the go statement from the loop variable, the key conversion string(ip) is the one EnrichWithReverseDns applies to the hop's / destination's own address, and the names are assigned to that very hop / destination; (R18.2) the failing branch of the lookup goroutine writes nothing and the function never returns an error, EnrichWithReverseDns returns nothing and never writes a hop list; (R18.3) in every instantiation of cache.GetWithExpiration Cache.Set is reached only on the callback's err == nil edge, the callback is not called on a hit and a hit returns the stored value; (R18.4) GetPublicIP ranges over the provider list in order, returns at the first nil-error answer and continues otherwise, and handleRequest marks the 4xx-status and invalid-body outcomes Permanent; (R18.5) map and accumulator accesses are under the mutex (C14 R14.2). Expiry timing of go-cache, the resolver's answers and completion orders beyond the lockset argument are not decided. No other outcome of a completely received answer that may carry a 4xx status is reported with a retryable error.", runC18)
+	register("C18", "Decides the structural clauses of enrichment: (R18.1) in GetReverseDnsForIPs the map key and the lookup argument are both the goroutine's own ip parameter, passed by value at the go statement from the loop variable, the key conversion string(ip) is the one EnrichWithReverseDns applies to the hop's / destination's own address, and the names are assigned to that very hop / destination; (R18.2) the failing branch of the lookup goroutine writes nothing and the function never returns an error, EnrichWithReverseDns returns nothing and never writes a hop list; (R18.3) in every instantiation of cache.GetWithExpiration Cache.Set is reached only on the callback's err == nil edge, the callback is not called on a hit and a hit returns the stored value; (R18.4) GetPublicIP ranges over the provider list in order, returns at the first nil-error answer and continues otherwise, and handleRequest marks the 4xx-status and invalid-body outcomes Permanent; (R18.5) map and accumulator accesses are under the mutex (C14 R14.2). Expiry timing of go-cache, the resolver's answers and completion orders beyond the lockset argument are not decided. No other outcome of a completely received answer that may carry a 4xx status is reported with a retryable error. (R18.3b) The callbacks handed to the cache return a non-nil error on every path on which the error of a call they made is not known to be nil. The goroutine's own address may be a captured per-iteration variable; skipping the empty address is tolerated; names attached through a helper must reach the document's element, not a copy.", runC18)
 }
 
 // skipsEmptyOnly: block b (a latch that goes back to the loop header without passing the spawn) is reached only under the
@@ -191,89 +191,89 @@ func runC18(c *Ctx) {
 			}
 		}
 		for _, g := range scope {
-		for _, b := range g.Blocks {
-			for _, in := range b.Instrs {
-				st, ok := in.(*ssa.Store)
-				if !ok {
-					continue
-				}
-				fa, ok := st.Addr.(*ssa.FieldAddr)
-				if !ok {
-					continue
-				}
-				name := structFieldName(fa)
-				root, _ := addrRootFields(st.Addr)
-				if al, isA := root.(*ssa.Alloc); isA && !al.Heap {
-					continue
-				}
-				if name != "ReverseDns" {
-					if len(g.Params) > 0 && root == ssa.Value(g.Params[0]) || isNamedStruct(fa.X.Type(), "result") {
-						R.Fail("R18.2", fn+"#other-store["+name+"]", st.Pos(), fn, "enrichment writes the field "+name+" of the document: it may only attach names")
+			for _, b := range g.Blocks {
+				for _, in := range b.Instrs {
+					st, ok := in.(*ssa.Store)
+					if !ok {
+						continue
 					}
-					continue
-				}
-				nst++
-				// a store through a parameter of a helper reaches the document only if every caller passes an address inside the
-				// document, not the address of a copy (a range variable)
-				if pr, isParam := root.(*ssa.Parameter); isParam && g != e {
-					idx := 0
-					for k, q := range g.Params {
-						if q == pr {
-							idx = k
+					fa, ok := st.Addr.(*ssa.FieldAddr)
+					if !ok {
+						continue
+					}
+					name := structFieldName(fa)
+					root, _ := addrRootFields(st.Addr)
+					if al, isA := root.(*ssa.Alloc); isA && !al.Heap {
+						continue
+					}
+					if name != "ReverseDns" {
+						if len(g.Params) > 0 && root == ssa.Value(g.Params[0]) || isNamedStruct(fa.X.Type(), "result") {
+							R.Fail("R18.2", fn+"#other-store["+name+"]", st.Pos(), fn, "enrichment writes the field "+name+" of the document: it may only attach names")
+						}
+						continue
+					}
+					nst++
+					// a store through a parameter of a helper reaches the document only if every caller passes an address inside the
+					// document, not the address of a copy (a range variable)
+					if pr, isParam := root.(*ssa.Parameter); isParam && g != e {
+						idx := 0
+						for k, q := range g.Params {
+							if q == pr {
+								idx = k
+							}
+						}
+						if n := c.P.CallGraph().Nodes[g]; n != nil {
+							for _, in := range n.In {
+								if in.Caller.Func == nil || !core.InModule(in.Caller.Func) || in.Site.Common().IsInvoke() || idx >= len(in.Site.Common().Args) {
+									continue
+								}
+								aroot, _ := addrRootFields(in.Site.Common().Args[idx])
+								if al, isAl := aroot.(*ssa.Alloc); isAl {
+									if _, isStruct := al.Type().Underlying().(*types.Pointer).Elem().Underlying().(*types.Struct); isStruct {
+										R.Fail("R18.1", fmt.Sprintf("%s#assign-to-copy[%s]", fn, core.FuncName(g)), in.Site.Pos(), fn, "the names are attached through "+core.FuncName(g)+" to a copy of the document's element ("+al.Name()+", a local variable): fields held by value (the destination) keep no names")
+									}
+								}
+							}
 						}
 					}
-					if n := c.P.CallGraph().Nodes[g]; n != nil {
-						for _, in := range n.In {
-							if in.Caller.Func == nil || !core.InModule(in.Caller.Func) || in.Site.Common().IsInvoke() || idx >= len(in.Site.Common().Args) {
-								continue
+					for _, pa := range firstPath(g, b) {
+						env := core.NewEnv(c.P, pa)
+						owner := env.Term(fa.X)
+						v := env.Term(st.Val)
+						// the map is what the batch lookup returned (handed down as a parameter, if the store sits in a helper)
+						fromBatch := v.Op == "lookup" && strings.Contains(v.Args[0].String(), "GetReverseDnsForIPs")
+						if lk, isLk := st.Val.(*ssa.Lookup); isLk && !fromBatch {
+							if ex, isEx := c.P.DefX(lk.X).(*ssa.Extract); isEx {
+								if call, isCall := ex.Tuple.(*ssa.Call); isCall && call.Common().StaticCallee() != nil && core.FuncName(call.Common().StaticCallee()) == "reversedns.GetReverseDnsForIPs" {
+									fromBatch = true
+								}
 							}
-							aroot, _ := addrRootFields(in.Site.Common().Args[idx])
-							if al, isAl := aroot.(*ssa.Alloc); isAl {
-								if _, isStruct := al.Type().Underlying().(*types.Pointer).Elem().Underlying().(*types.Struct); isStruct {
-									R.Fail("R18.1", fmt.Sprintf("%s#assign-to-copy[%s]", fn, core.FuncName(g)), in.Site.Pos(), fn, "the names are attached through "+core.FuncName(g)+" to a copy of the document's element ("+al.Name()+", a local variable): fields held by value (the destination) keep no names")
+						}
+						// v = lookup(map, conv[string](X.IPAddress)) with X the owner
+						ok := v.Op == "lookup" && v.Args[1].Op == "conv" && v.Args[1].Name == "string" && v.Args[1].Args[0].Op == "field" && v.Args[1].Args[0].Name == "IPAddress" &&
+							sameOwner(v.Args[1].Args[0].Args[0], owner) && fromBatch
+						R.Check(ok, "R18.1", fmt.Sprintf("%s#assign[%s]", fn, ownerKind(owner)), st.Pos(), fn, "names = map[string(own address)] assigned to the owner of that address", "names assigned to "+owner.String()+" come from "+v.String())
+					}
+				}
+			}
+		}
+		R.Floor("R18.1:reader-assignments", nst, 2)
+		// hop lists are never written
+		for _, g := range scope {
+			for _, b := range g.Blocks {
+				for _, in := range b.Instrs {
+					if call, ok := in.(*ssa.Call); ok {
+						if bi, ok := call.Common().Value.(*ssa.Builtin); ok && bi.Name() == "append" {
+							// appends to the local ips list only
+							if st := appendTarget(call); st != nil {
+								if al, ok := st.Addr.(*ssa.Alloc); !ok || al.Heap {
+									R.Fail("R18.2", fn+"#append", call.Pos(), fn, "enrichment appends to something other than its local address list")
 								}
 							}
 						}
 					}
 				}
-				for _, pa := range firstPath(g, b) {
-					env := core.NewEnv(c.P, pa)
-					owner := env.Term(fa.X)
-					v := env.Term(st.Val)
-					// the map is what the batch lookup returned (handed down as a parameter, if the store sits in a helper)
-					fromBatch := v.Op == "lookup" && strings.Contains(v.Args[0].String(), "GetReverseDnsForIPs")
-					if lk, isLk := st.Val.(*ssa.Lookup); isLk && !fromBatch {
-						if ex, isEx := c.P.DefX(lk.X).(*ssa.Extract); isEx {
-							if call, isCall := ex.Tuple.(*ssa.Call); isCall && call.Common().StaticCallee() != nil && core.FuncName(call.Common().StaticCallee()) == "reversedns.GetReverseDnsForIPs" {
-								fromBatch = true
-							}
-						}
-					}
-					// v = lookup(map, conv[string](X.IPAddress)) with X the owner
-					ok := v.Op == "lookup" && v.Args[1].Op == "conv" && v.Args[1].Name == "string" && v.Args[1].Args[0].Op == "field" && v.Args[1].Args[0].Name == "IPAddress" &&
-						sameOwner(v.Args[1].Args[0].Args[0], owner) && fromBatch
-					R.Check(ok, "R18.1", fmt.Sprintf("%s#assign[%s]", fn, ownerKind(owner)), st.Pos(), fn, "names = map[string(own address)] assigned to the owner of that address", "names assigned to "+owner.String()+" come from "+v.String())
-				}
 			}
-		}
-		}
-		R.Floor("R18.1:reader-assignments", nst, 2)
-		// hop lists are never written
-		for _, g := range scope {
-		for _, b := range g.Blocks {
-			for _, in := range b.Instrs {
-				if call, ok := in.(*ssa.Call); ok {
-					if bi, ok := call.Common().Value.(*ssa.Builtin); ok && bi.Name() == "append" {
-						// appends to the local ips list only
-						if st := appendTarget(call); st != nil {
-							if al, ok := st.Addr.(*ssa.Alloc); !ok || al.Heap {
-								R.Fail("R18.2", fn+"#append", call.Pos(), fn, "enrichment appends to something other than its local address list")
-							}
-						}
-					}
-				}
-			}
-		}
 		}
 	}
 	// ---- R18.3 cache
